@@ -229,6 +229,12 @@ CHECKS = {
        "receiver's Receive Maximum slot held until its application acknowledges (C01_pair_qos{1,2}_completes_manual_v5, Conn/PairManual5.v); "
        "any SEQUENCE of exchanges with the two applications in the loop, identifiers reused, both versions (C01_pair_sequence_exactly_once_manual, "
        "C01_pair_sequence_exactly_once_manual_v5, Conn/PairManualSeq.v, PairManualSeq5.v); "
+       "(1q0) QoS 0 INSIDE SEQUENCES, BOTH SIDES PUBLISHING: any sequence of messages of any mix of QoS 0 / 1 / 2 (v3.1.1) is notified exactly "
+       "once each, in order; a QoS 0 step has no application precondition and leaves allocator, store, awaited sets and handled sets of both "
+       "endpoints as they were (C01_pair_mixed_sequence_exactly_once, C01_pair_mixed_step, C01_pair_qos0_sequence_leaves_nothing, "
+       "Conn/PairSeqMixed.v); with either side publishing each item, the invariant holding in both directions "
+       "(C01_two_way_mixed_sequence_exactly_once, C01_two_way_qos0_sequence_completes, Conn/PairSeqMixed2.v); both end to end from fresh "
+       "objects through the handshake (C01_fresh_v311_mixed_sequence, C01_fresh_v311_two_way_mixed_sequence); "
        "(1v5) v5.0 WITH SEVERAL EXCHANGES IN FLIGHT: the invariant adds the Receive Maximum accounts (sender's count = exchanges in "
        "flight <= the peer's limit; receiver's outstanding set = its handled set), the quota is never exceeded, and after the drain the "
        "vacancy is the full maximum (C01_pair_concurrent_exactly_once_v5); (1b) THE SAME ACROSS TRANSPORT LOSS - persistent sessions, one more action 'the transport "
